@@ -195,6 +195,10 @@ C02 = dict(
         "c02_open_append_clear": _OP("append + clear entries are replayed in order"),
         "c02_open_garbage_tail": _OP("5 garbage bytes after the last entry are ignored"),
         "c02_open_stale_entry": _OP("an entry carrying the previous header bit (left behind by a crash between header write and truncate) is ignored"),
+        "c02_open_phase_tt": _OP("header bits [1,1] (slot 0 newest): current entry kept, stale entry dropped, log continues with bit 0"),
+        "c02_open_phase_tf": _OP("header bits [1,0] (slot 1 newest): current entry (bit 1) kept, stale dropped, log continues with bit 1"),
+        "c02_open_phase_ft": _OP("header bits [0,1] (slot 1 newest): current entry (bit 1) kept, stale dropped"),
+        "c02_open_phase_ff_both": _OP("header bits [0,0] with both slots (slot 0 newest)", tier="thorough"),
         "c02_open_valid_then_stale": _OP("valid entry followed by a stale one: only the valid one is replayed"),
     },
 )
@@ -221,8 +225,8 @@ C07 = dict(
         "c07_torn_header_over_old_k150": _OP(tier="thorough", desc="header flush torn after 150 bytes over the older header in slot 1: falls back to slot 0"),
         "c07_torn_entry_end_k3": _OP("entry append torn after 3 bytes at the end of the file: ignored"),
         "c07_torn_entry_end_k8": _OP(tier="thorough", desc="entry append torn after 8 bytes at the end of the file: ignored"),
-        "c07_torn_entry_end_k9": _OP("entry append torn after 9 bytes at the end of the file: ignored"),
-        "c07_torn_entry_end_k148": _OP(tier="thorough", desc="entry append torn after 148 bytes at the end of the file: ignored"),
+        "c07_torn_entry_end_k9": _OP(tier="thorough", desc="entry append torn after 9 bytes at the end of the file: ignored"),
+        "c07_torn_entry_end_k148": _OP("entry append torn after 148 bytes at the end of the file: ignored"),
         "c07_torn_entry_over_stale_k8": _OP("entry append torn after 8 bytes over a stale entry: ignored"),
         "c07_torn_entry_over_stale_k40": _OP(tier="thorough", desc="entry append torn after 40 bytes over a stale entry: ignored"),
         "c07_torn_entry_over_stale_k148": _OP("entry append torn after 148 bytes over a stale entry: ignored"),
